@@ -1046,7 +1046,9 @@ fn source_enumeration(cx: &mut Cx) -> Vec<String> {
     };
     let mut table = serde_json::Map::new();
     // 1. arms of try_execute_command
-    let body = src.split("async fn try_execute_command").nth(1).and_then(|r| r.split("fn execute_connection_level").next()).unwrap_or("");
+    // (function bodies are cut out by NAME with brace matching: the order of the functions in the file,
+    // their visibility and attributes do not matter)
+    let body = crate::c15::fn_text(&src, "try_execute_command").unwrap_or("");
     let mut variants: Vec<String> = Vec::new();
     for line in body.lines() {
         let mut rest = line;
@@ -1074,7 +1076,7 @@ fn source_enumeration(cx: &mut Cx) -> Vec<String> {
         }
     }
     // 2. literals of is_stub_command / handle_stub_command
-    let stub_body = src.split("fn is_stub_command").nth(1).and_then(|r| r.split("fn collect_get_keys").next()).unwrap_or("");
+    let stub_body = format!("{}\n{}", crate::c15::fn_text(&src, "is_stub_command").unwrap_or(""), crate::c15::fn_text(&src, "handle_stub_command").unwrap_or(""));
     let mut lits: Vec<String> = Vec::new();
     for line in stub_body.lines() {
         let t = line.trim_start();
@@ -1106,14 +1108,20 @@ fn source_enumeration(cx: &mut Cx) -> Vec<String> {
             cx.out.violation(&format!("C04:coverage:stub-not-driven:{}", l.trim()), "is_stub_command / handle_stub_command mention a name for which the harness has no frame (harness/src/c04.rs STUBS)", json!({"literal": l}));
         }
     }
-    // 3. functions
+    // 3. functions.  Only `new` / `run` / `from_perf_config` / the hooks are public: every private function is
+    //    reachable through `run` alone, i.e. through the bytes a case sends — a new or renamed PRIVATE helper
+    //    is no new entry point (it is listed, not a violation); a new PUBLIC function is
     let mut fns: Vec<String> = Vec::new();
+    let mut public: Vec<String> = Vec::new();
     for line in src.lines() {
         let t = line.trim_start();
-        for pre in ["pub async fn ", "async fn ", "pub fn ", "fn "] {
+        for pre in ["pub async fn ", "pub fn ", "pub(crate) fn ", "pub(crate) async fn ", "async fn ", "fn "] {
             if let Some(r) = t.strip_prefix(pre) {
                 let name: String = r.chars().take_while(|c| c.is_alphanumeric() || *c == '_').collect();
                 if !name.is_empty() && !fns.contains(&name) {
+                    if pre.starts_with("pub") {
+                        public.push(name.clone());
+                    }
                     fns.push(name);
                 }
                 break;
@@ -1128,9 +1136,12 @@ fn source_enumeration(cx: &mut Cx) -> Vec<String> {
             Some(c) => {
                 table.insert(format!("fn {}", f), json!(c));
             }
+            None if !public.contains(f) => {
+                table.insert(format!("fn {}", f), json!("private function not in the harness's table: reachable only through run(), i.e. through the bytes of the cases (correspondence)"));
+            }
             None => {
                 table.insert(format!("fn {}", f), json!("UNACCOUNTED"));
-                cx.out.violation(&format!("C04:coverage:fn-not-accounted:{}", f), "a function of connection_optimized.rs is neither driven nor listed with the reason why not (harness/src/c04.rs fn_coverage)", json!({"fn": f}));
+                cx.out.violation(&format!("C04:coverage:fn-not-accounted:{}", f), "a PUBLIC function of connection_optimized.rs is neither driven nor listed with the reason why not (harness/src/c04.rs fn_coverage)", json!({"fn": f}));
             }
         }
     }
@@ -2204,7 +2215,10 @@ fn recogniser_corpus(cx: &mut Cx) {
     }
     for bad in &frames {
         for cfg in &cfgs {
-            corr_only(cx, cfg, &[bad.clone()], "recogniser:near-wellformed:alone");
+            // (a frame the decoder rejects must be answered with an error: the malformed oracle, which also
+            // writes the op for the correspondence)
+            check_malformed(cx, cfg, &[], bad, "near-wellformed", &[], &[bad.clone()], "recogniser:alone");
+            check_malformed(cx, cfg, &[vec![b"PING".to_vec()]], bad, "near-wellformed", &[], &[ping.clone(), bad.clone()], "recogniser:after-ping");
             let mut s = bad.clone();
             for _ in 0..3 {
                 s.extend_from_slice(&ping);
